@@ -48,7 +48,7 @@ func genPacketOp(g *kernel.Rng, e int, respBias bool) kernel.Op {
 	case 7:
 		return kernel.Op{K: "closeStream", T: e, N: []int64{t}}
 	case 8:
-		return kernel.Op{K: "scs", T: e, N: []int64{g.OneOf(1, 2, 128, 4096, 65536, 1<<31-1, int64(g.U32()>>1)|1)}}
+		return kernel.Op{K: "scs", T: e, N: []int64{g.OneOf(1, 2, 128, 4096, 65536, 1<<31-1, 1<<31, 1<<32-1, int64(g.U32()>>1)|1, int64(g.U32())|1)}}
 	case 9:
 		return kernel.Op{K: "was", T: e, N: []int64{int64(g.U32())}}
 	case 10:
@@ -659,7 +659,7 @@ func evalDir(res *kernel.Result, p *kernel.Plan, from, to *side, name string) bo
 				res.Fail("C03/lost", "%s: reader ended with %v after %d of %d packets", name, rr.err, pos, len(sent))
 				return false
 			}
-			if c := oe.Cause(rr.err); c != io.EOF {
+			if c := oe.Cause(rr.err); c != io.EOF && c != io.ErrUnexpectedEOF {
 				res.Fail("C03/end-error", "%s: reader ended with %v", name, rr.err)
 				return false
 			}
